@@ -104,6 +104,17 @@ pub enum Discriminants {
     C = 10,
 }
 
+pub const BASE: isize = 64;
+
+#[derive(TypeInfo, Encode)]
+pub enum ExprDiscriminants {
+    Load = BASE,
+    Exec = 1 << 2,
+    Add = b'+' as isize,
+    Next,
+    Paren = (BASE + 2),
+}
+
 #[derive(TypeInfo, Encode)]
 pub enum CodecIndex {
     #[codec(index = 5)]
@@ -239,6 +250,42 @@ pub struct Spacing {
     pub c: [ ( u8 , u8 ) ; 2 ],
     pub d: & 'static str,
     pub e: :: core :: option :: Option < u8 >,
+}
+
+#[derive(TypeInfo, Encode)]
+pub enum MultiAttr {
+    #[codec(index = 7)]
+    #[codec(skip)]
+    Hidden,
+    #[codec(index = 3)]
+    A,
+    B,
+}
+
+#[derive(TypeInfo)]
+pub struct MultiAttrFields {
+    #[scale_info(rename = "x")]
+    #[codec(compact)]
+    pub a: u32,
+    #[codec(compact)]
+    #[codec(skip)]
+    pub b: u32,
+    /// documented and skipped
+    #[codec(skip)]
+    pub c: u8,
+    #[allow(unused)]
+    #[codec(compact)]
+    pub d: u64,
+}
+
+#[allow(unused_parens)]
+#[derive(TypeInfo)]
+pub struct Parens<'a> {
+    pub a: (u8),
+    pub b: Vec<(u16)>,
+    pub c: [(bool); 2],
+    pub d: (&'a str),
+    pub e: ((u8, u16)),
 }
 
 macro_rules! with_group_type {
